@@ -138,3 +138,47 @@ Fixpoint read_words (ls : list (list Z)) : option (list Z) :=
   end.
 
 Definition read_code (text : list Z) : option (list Z) := read_words (lines text).
+
+(* ---- the whole `hera assemble --stdout` text: "[DATA]", the data listing, "[CODE]", the code listing, both
+   listings indented by textwrap.indent(.., "  ") (lines of white space only are left alone) ---------------- *)
+
+Definition is_blank (l : list Z) : bool := forallb (fun c => (c =? 32) || (c =? 9)) l.
+Definition indent_line (l : list Z) : list Z := if is_blank l then l else 32 :: 32 :: l.
+Definition indent2 (s : list Z) : list Z := join_lines (map indent_line (lines s)).
+Definition DATA_H : list Z := [91; 68; 65; 84; 65; 93].
+Definition CODE_H : list Z := [91; 67; 79; 68; 69; 93].
+Definition full_listing (ds : Z) (cells ws : list Z) : list Z :=
+  DATA_H ++ NL :: indent2 (data_listing ds cells) ++ NL :: CODE_H ++ NL :: indent2 (code_listing ws).
+
+(* a strict reader of the two sections *)
+Fixpoint text_eqb (a b : list Z) : bool :=
+  match a, b with
+  | [], [] => true
+  | x :: a', y :: b' => (x =? y) && text_eqb a' b'
+  | _, _ => false
+  end.
+Definition strip2 (l : list Z) : list Z :=
+  match l with a :: b :: r => if (a =? 32) && (b =? 32) then r else l | _ => l end.
+(* the lines before the first line equal to h, and the lines after it *)
+Fixpoint break_at (h : list Z) (ls : list (list Z)) : option (list (list Z) * list (list Z)) :=
+  match ls with
+  | [] => None
+  | l :: r => if text_eqb l h then Some ([], r)
+              else match break_at h r with Some (a, b) => Some (l :: a, b) | None => None end
+  end.
+Definition read_full (text : list Z) : option (list (Z * Z) * list Z) :=
+  match lines text with
+  | h :: rest =>
+      if text_eqb h DATA_H then
+        match break_at CODE_H rest with
+        | Some (d, c) => match image_runs (map strip2 d), read_words (map strip2 c) with
+                         | Some runs, Some ws => Some (runs, ws)
+                         | _, _ => None
+                         end
+        | None => None
+        end
+      else None
+  | [] => None
+  end.
+
+
